@@ -247,6 +247,8 @@ def run(ctx):
     d4_overwrite_gates(ctx)
     d5_private_callers(ctx)
     d6_protected_sets(ctx)
+    from ._shared import encoding_agreement
+    ctx.floor('C20 text/json readers checked for encoding agreement', encoding_agreement(ctx, 'D7'), 3)
 
 
 # --------------------------------------------------------------------------
